@@ -19,6 +19,7 @@ structure St where
   wire : List Byte := []
   cur : List (Byte × Bool) := []       -- bytes the model's encoder calls consumed, a cut after each call
   sbytes : List Byte := []             -- S: bytes handed over by the script since the last finished frame
+  xshift : Nat := 0                    -- S: finished bytes consumed through encode_array::shift
   lastStart : Nat := 0
   lastEnd : Nat := 0
   haveFrame : Bool := false
@@ -212,6 +213,95 @@ def runDecoder (c : Codec) (st : DecState) (segs : List Seg) (peek : Bool) : Dec
   | .cobs v => decodeV v st segs peek
   | .command => decodeCommand st segs peek
 
+/-- frames (each up to its delimiter) of finished data -/
+def splitFrames (w : List Byte) : List (List Byte) :=
+  (w.foldl (fun (acc : List (List Byte) × List Byte) b =>
+    if b = 0 then (acc.1 ++ [acc.2 ++ [0]], []) else (acc.1, acc.2 ++ [b])) ([], [])).1
+
+/-- `frames=<complete frames> msgs=<their decodings>` of bytes handed out by `data()`, and the rest -/
+def dataText (c : Codec) (d : List Byte) : String × List Byte :=
+  let fs := splitFrames d
+  let complete := fs.flatten
+  let msgs := fs.map fun f => match specDecode c f with
+    | "err" => "err"
+    | t => (t.drop 4).toString
+  (s!"frames={toHex complete} msgs={if fs.isEmpty then "-" else ",".intercalate msgs}", d.drop complete.length)
+
+def xaLine (a : EncArray) (r c alts : String) : String :=
+  s!"R {r} | C {c} | I done={a.st.done} scratch={a.st.scratch} used={a.used} | S {alts}"
+
+def errName (r : Int) : String :=
+  if r = -1 then "BadArgument" else if r = -2 then "BadValue" else if r = -3 then "BadType"
+  else if r = -4 then "BadOperation" else if r = -8 then "BadEncoding" else if r = -16 then "MissingData"
+  else if r = -17 then "MissingBuffer" else "ERR?"
+
+/-- ops on the C++ wrapper `mpt::encode_array` (second driver part, harness/drvxx_codec.cpp) -/
+def xaStep (s : St) (w : List String) : St × String :=
+  let marksOf (cons : List Nat) (bytes : List Byte) : List (Byte × Bool) :=
+    (cons.foldl (fun (acc : List (Byte × Bool) × List Byte) k =>
+      (acc.1 ++ markChunk (acc.2.take k), acc.2.drop k)) ([], bytes)).1
+  let openAlts (bytes : List Byte) (okText : String) : String :=
+    match s.codec, bytes.contains 0 with
+    | .command, true => "* ; * || * ; *"
+    | .cobs v, true => if v.isZpe then "* ; * || * ; *" else okText
+    | _, _ => okText
+  match w with
+  | ["new", name] =>
+    match Codec.ofName name with
+    | some c => let s' : St := { codec := c }; (s', xaLine s'.arr "ok" "-" "ok ; *")
+    | none => (s, "bad-op")
+  | ["push", dat] =>
+    match parseHex dat with
+    | some bytes =>
+      if bytes.isEmpty then (s, "bad-op") else
+      let alts := openAlts bytes s!"ok ret={bytes.length} ; *"
+      match arrayPush s.codec mallocFill s.arr (some bytes) with
+      | .ok (a, ret, cons) =>
+        let taken := cons.foldl (· + ·) 0
+        let s' := { s with arr := a, cur := s.cur ++ marksOf cons bytes, sbytes := s.sbytes ++ bytes.take taken }
+        (s', xaLine a (if ret < 0 then s!"refused ret={errName ret}" else s!"ok ret={ret}") "-" alts)
+      | x => (s, xaLine s.arr s!"refused ret={resName x}" "-" alts)
+    | none => (s, "bad-op")
+  | ["term"] =>
+    let (_, wr) := termAlts s none
+    let sp := { s with wire := wr, cur := [], sbytes := [] }
+    match arrayPush s.codec mallocFill s.arr none with
+    | .ok (a, ret, _) =>
+      ({ sp with arr := a }, xaLine a (if ret < 0 then s!"refused ret={errName ret}" else s!"ok ret={ret}") "-" "ok ret=0 ; *")
+    | x => (sp, xaLine s.arr s!"refused ret={resName x}" "-" "ok ret=0 ; *")
+  | ["msg", frs] =>
+    match ((frs.splitOn ",").map parseHex).foldr (fun x acc => match x, acc with
+        | some b, some l => some (b :: l) | _, _ => none) (some []) with
+    | some frags =>
+      if frags.isEmpty ∨ frags.length > 17 then (s, "bad-op") else
+      let all := frags.flatten
+      let alts := openAlts all "ok ; *"
+      match xaPushMsg s.codec mallocFill s.arr frags [] with
+      | .ok (a, ok, cons) =>
+        let taken := cons.foldl (· + ·) 0
+        let s' := { s with arr := a, cur := s.cur ++ marksOf cons all, sbytes := s.sbytes ++ all.take taken }
+        (s', xaLine a (if ok then "ok" else "refused") "-" alts)
+      | x => (s, xaLine s.arr s!"refused:{resName x}" "-" alts)
+    | none => (s, "bad-op")
+  | ["data"] =>
+    let (r, rest) := dataText s.codec (xaData s.arr)
+    let (sr, _) := dataText s.codec (s.wire.drop s.xshift)
+    (s, xaLine s.arr r s!"rest={toHex rest}" s!"{sr} ; *")
+  | ["shift", nn] =>
+    match nn.toNat? with
+    | some n =>
+      let avail := (s.wire.drop s.xshift).length
+      let alts := if n = 0 then "* ; *" else if n ≤ avail then "ok ; *" else "* ; * || * ; *"
+      match xaShift s.arr n with
+      | some a => ({ s with arr := a, xshift := if n ≤ avail then s.xshift + n else s.xshift }, xaLine a "ok" "-" alts)
+      | none => ({ s with xshift := if n ≠ 0 ∧ n ≤ avail then s.xshift + n else s.xshift }, xaLine s.arr "refused" "-" alts)
+    | none => (s, "bad-op")
+  | ["prepare", nn] =>
+    match nn.toNat? with
+    | some _ => (s, xaLine s.arr "refused" "-" "refused ; *")     -- only raw arrays can be prepared
+    | none => (s, "bad-op")
+  | _ => (s, "bad-op")
+
 def step (s : St) (w : List String) : St × String :=
   match w with
   | "dec" :: "new" :: name :: segw =>
@@ -397,6 +487,7 @@ def step (s : St) (w : List String) : St × String :=
       let f := pyEnc m
       (s, s!"R frame={toHex f} {specDecode (.cobs .cobs) f} | C - | I - | S frame={toHex (enc .cobs m)} msg={toHex m} ; *")
     | _, _ => (s, "bad-op")
+  | "xa" :: rest => xaStep s rest
   | ["lookup", what, arg] =>
     -- S: the framing the coding number stands for (convert.h), the same on the encoder and the decoder side
     let specOf (n : Nat) : String := if n = 1 then "command" else ((Variant.ofCoding n).map Variant.name).getD "none"
